@@ -62,7 +62,7 @@ def build_signature(t, max_each=2, annos=ANNOS):
         params.append(P(name(idx), kind, default=default, annotation=annos[t.take(len(annos))] if i == 0 else P.empty))
         idx += 1
     if has_va:
-        params.append(P(name(idx), P.VAR_POSITIONAL, annotation=annos[t.take(2)]))
+        params.append(P(name(idx), P.VAR_POSITIONAL, annotation=annos[t.take(min(2, len(annos)))]))
         idx += 1
     for i in range(n_ko):
         d = t.take(3)
@@ -239,9 +239,142 @@ tape_harness("modstub_quick", [("t", 12)], {}, lambda t: modstub_body(t, QUICK_F
 tape_harness("modstub_thorough", [("t", 18)], {}, lambda t: modstub_body(t, MOD_FUNCS), globals())
 
 
+# ---------------------------------------------------------------- generated modules (real functions made from the tape)
+GEN_MODULE = "vfix_gen"
+GEN_KINDS = ("module", "instance", "class", "static", "property", "async-method", "generator", "nested-instance", "nested-static", "async-module")
+OTHER = ("none", "module function", "method of a class nested two levels deep", "instance method of the same class")
+
+
+def _def_source(name, kind, sig, indent):
+    """Source of one function whose parameter list is `sig` (plus the receiver its kind needs)."""
+    params = str(sig)[1:-1] if kind != "property" else ""
+    recv = {"instance": "self", "class": "cls", "property": "self", "async-method": "self", "nested-instance": "self"}.get(kind)
+    if recv:
+        params = recv + (", " + params if params else "")
+        if params.startswith(recv + ", /"):  # a bare '/' cannot follow the receiver alone: make the receiver positional-only too
+            pass
+    deco = {"class": "@classmethod\n", "static": "@staticmethod\n", "nested-static": "@staticmethod\n", "property": "@property\n"}.get(kind, "")
+    head = ("async def" if kind.startswith("async") else "def") + f" {name}({params}):"
+    body = "yield 0" if kind == "generator" else "return 0"
+    pad = " " * indent
+    return "".join(pad + ln + "\n" for ln in (deco + head).split("\n")) + pad + "    " + body + "\n"
+
+
+def build_gen_module(t, others=None):
+    """A fresh module `vfix_gen` (replacing the previous generation under the same name) with one function of a
+    tape-chosen kind and signature and optionally a second function elsewhere in the module."""
+    import sys
+    import types
+
+    kind = GEN_KINDS[t.take(len(GEN_KINDS))]
+    others = others or OTHER
+    other = others[t.take(len(others))]
+    sig = build_signature(t, 1, (P.empty,)) if kind != "property" else inspect.Signature([])
+    sig = sig.replace(return_annotation=inspect.Signature.empty)
+    src = ""
+    main_q = None
+    if kind in ("module", "generator", "async-module"):
+        src += _def_source("target", kind, sig, 0)
+        main_q = "target"
+    if other == "module function":
+        src += "def other(a):\n    return a\n"
+    cls_body = ""
+    if kind in ("instance", "class", "static", "property", "async-method"):
+        cls_body += _def_source("target", kind, sig, 4)
+        main_q = "Host.target"
+    if other == "instance method of the same class":
+        cls_body += "    def other(self, a):\n        return a\n"
+    nested = ""
+    if kind in ("nested-instance", "nested-static"):
+        nested += "    class Inner:\n" + _def_source("target", kind, sig, 8)
+        main_q = "Host.Inner.target"
+    if other == "method of a class nested two levels deep":
+        nested += "    class Mid:\n        class Deep:\n            def other(self, a):\n                return a\n"
+    if cls_body or nested:
+        src += "class Host:\n" + cls_body + nested
+    mod = types.ModuleType(GEN_MODULE)
+    exec(compile(src, "<" + GEN_MODULE + ">", "exec"), mod.__dict__)
+    sys.modules[GEN_MODULE] = mod
+
+    def resolve(q):
+        o = mod
+        owner = None
+        for part in q.split("."):
+            owner = o
+            o = (o.__dict__ if isinstance(o, type) else vars(o))[part]
+        if isinstance(o, (classmethod, staticmethod)):
+            return o.__func__, owner, o
+        if isinstance(o, property):
+            return o.fget, owner, o
+        return o, owner, o
+
+    funcs = [(main_q,) + resolve(main_q)]
+    other_q = {"module function": "other", "instance method of the same class": "Host.other", "method of a class nested two levels deep": "Host.Mid.Deep.other"}.get(other)
+    if other_q:
+        funcs.append((other_q,) + resolve(other_q))
+    return mod, src, funcs
+
+
+OTHER_Q = (OTHER[0], OTHER[2])
+
+
+def genmod_body(t, others=None):
+    mod, src, funcs = build_gen_module(t, others)
+    both = len(funcs) == 2 and t.take(2) == 1
+    traced = funcs if both else funcs[:1]
+    traces = []
+    for _q, f, _owner, _raw in traced:
+        names = f.__code__.co_varnames[: f.__code__.co_argcount + f.__code__.co_kwonlyargcount]
+        traces.append(CallTrace(f, {n: int for n in names}, int, None))
+    stubs = build_module_stubs_from_traces(traces, 0, ExistingAnnotationStrategy.IGNORE, NoOpRewriter())
+
+    def fail(msg):
+        return check(False, lambda: f"{msg}\n--- generated module ---\n{src}--- stub ---\n{text}")
+
+    text = stubs[GEN_MODULE].render() if GEN_MODULE in stubs else None
+    if set(stubs) != {GEN_MODULE}:
+        return fail(f"stubs for modules {sorted(stubs)}")
+    try:
+        info = parse_stub(text, GEN_MODULE)
+    except StubError as e:
+        return fail(str(e))
+    want = {q for q, *_ in traced}
+    if set(info.functions) != want:
+        return fail(f"functions in the stub {sorted(info.functions)} != traced functions {sorted(want)}")
+    for q, f, _owner, raw in traced:
+        fis = info.functions[q]
+        if len(fis) != 1:
+            return fail(f"{q} appears {len(fis)} times")
+        fi = fis[0]
+        decos = ["classmethod"] if isinstance(raw, classmethod) else ["staticmethod"] if isinstance(raw, staticmethod) else ["property"] if isinstance(raw, property) else []
+        if fi.decorators != decos:
+            return fail(f"{q}: decorators {fi.decorators}, expected {decos}")
+        if fi.is_async != inspect.iscoroutinefunction(f):
+            return fail(f"{q}: async={fi.is_async}")
+        r = compare_args(fi.node.args, inspect.signature(f))
+        if r:
+            return fail(f"{q}: {r}")
+        has_recv = "." in q and not isinstance(raw, staticmethod)
+        names = f.__code__.co_varnames[: f.__code__.co_argcount + f.__code__.co_kwonlyargcount]
+        for i, n in enumerate(names):
+            if has_recv and i == 0:
+                if n in fi.annotations:
+                    return fail(f"{q}: the receiver {n} is annotated")
+            elif n not in fi.annotations:
+                return fail(f"{q}: traced parameter {n} has no annotation")
+    return check(True)
+
+
+tape_harness("genmod", [("t", 22)], {}, genmod_body, globals())
+tape_harness("genmod_quick", [("t", 22)], {}, lambda t: genmod_body(t, OTHER_Q), globals())
+
+
 def shards(name, prefix=4):
     from engine.verdicts import enumerate_prefixes
 
+    if name.startswith("genmod"):
+        oth = OTHER_Q if name.endswith("quick") else None
+        return [{f"t{j}": v for j, v in enumerate(p)} for p in enumerate_prefixes(lambda t: build_gen_module(t, oth), prefix + 2)]
     if name.startswith("sigrender"):
         me = 1 if name.endswith("quick") else 2
         an = ANNOS_Q if me == 1 else ANNOS
@@ -256,6 +389,9 @@ def describe(name, args):
 
     ks = sorted((k for k in args if k[0] == "t" and k[1:].isdigit()), key=lambda s: int(s[1:]))
     t = Tape([args[k] for k in ks])
+    if name.startswith("genmod"):
+        _mod, src, funcs = build_gen_module(t, OTHER_Q if name.endswith("quick") else None)
+        return {"generated_module": src, "functions": [q for q, *_ in funcs]}
     if name.startswith("sigrender"):
         sig = build_signature(t, 1 if name.endswith("quick") else 2, ANNOS_Q if name.endswith("quick") else ANNOS)
         mode = t.take(3)
